@@ -378,6 +378,12 @@ def coverage_case(cid="coverage"):
         S("H24", [("uint32", 1, "a"), ("uint32", 1, "b"), ("IPeer", 1, "o")]),
         S("H48", [("uint64", 1, "a"), ("IPeer", 1, "p"), ("uint64", 1, "b"), ("interface", 1, "q")]),
         S("HN32", [("IPeer", 1, "owner"), ("S8", 1, "created"), ("uint64", 1, "z")]),
+        S("P2", [("uint8", 1, "r"), ("uint8", 1, "g")]),
+        S("T8", [("uint16", 1, "id"), ("P2", 3, "px")]),
+        S("Strip24", [("P2", 12, "px")]),
+        S("Rgb", [("uint8", 3, "c")]),
+        S("HE24", [("IPeer", 1, "peer"), ("uint64", 1, "cookie")]),
+        S("HR32", [("uint64", 1, "id"), ("HE24", 1, "hop")]),
         {"k": "interface", "name": "ICov", "base": None, "members": [
             {"k": "error", "name": "COV_FAIL"},
             M("none", []),
@@ -400,12 +406,21 @@ def coverage_case(cid="coverage"):
             M("held2_out", [P("out", "H48", "h")]),
             M("held3_in", [P("in", "HN32", "h")]),
             M("held3_out", [P("out", "HN32", "h")]),
+            M("tile", [P("in", "T8", "t"), P("in", "uint32", "key"), P("out", "T8", "u")]),
+            M("strip", [P("in", "Strip24", "s"), P("in", "uint32", "key"), P("out", "Strip24", "w")]),
+            M("paint", [P("in", "Rgb", "colour"), P("in", "uint16", "depth")]),
+            M("probe", [P("out", "Rgb", "colour"), P("out", "uint16", "depth")]),
+            M("route_in", [P("in", "HR32", "rt")]),
             M("mix", [P("in", "buffer", "a"), P("in", "uint32", "x"), P("in", "IPeer", "p"), P("out", "uint64", "y"), P("out", "buffer", "b"), P("out", "IPeer", "q")]),
             M("opt", [P("in", "uint32", "x"), P("out", "uint32", "y")], optional=True),
         ]},
         {"k": "interface", "name": "IDer", "base": "ICov", "members": [
             M("extra", [P("in", "uint32", "x"), P("in", "B24", "s"), P("out", "uint32", "y")]),
             M("bare", []),
+        ]},
+        {"k": "interface", "name": "IDeep", "base": "IDer", "members": [
+            {"k": "error", "name": "DEEP_FAIL"},
+            M("deepest", [P("in", "uint16", "x"), P("out", "uint16", "y")]),
         ]},
     ]
     return {"id": cid, "files": [{"path": "main.idl", "nodes": nodes}], "main": "main.idl", "incdirs": []}
@@ -432,3 +447,31 @@ def nesting_case(depth, split, cid="nesting"):
     if inc:
         files.append({"path": "deps.idl", "nodes": inc})
     return {"id": f"{cid}-{depth}-{split}", "files": files, "main": "main.idl", "incdirs": []}
+
+
+def coverage_case2(cid="coverage2"):
+    """constructs on which one backend of the unchanged tree does not compile (C++ skeleton for
+    an `out` struct whose object sits in a nested struct, K11-cppNestedObjStructOut): exercised
+    through the C and Rust backends only"""
+    def P(d, t, n, arr=None):
+        return {"dir": d, "type": t, "arr": arr, "name": n}
+
+    def M(name, params):
+        return {"k": "method", "name": name, "optional": False, "doc": None, "params": params}
+
+    def S(name, fields):
+        return {"k": "struct", "name": name, "fields": [{"type": t, "count": c, "name": n} for t, c, n in fields]}
+    nodes = [
+        {"k": "interface", "name": "IPeer", "base": None, "members": [M("ping", [])]},
+        S("HE24", [("IPeer", 1, "peer"), ("uint64", 1, "cookie")]),
+        S("HR32", [("uint64", 1, "id"), ("HE24", 1, "hop")]),
+        S("HD48", [("uint64", 1, "id"), ("HE24", 1, "first"), ("interface", 1, "direct")]),
+        {"k": "interface", "name": "IRoute", "base": None, "members": [
+            M("route_out", [P("out", "HR32", "rt")]),
+            M("route_both", [P("in", "HR32", "a"), P("out", "HR32", "b")]),
+            M("deep_in", [P("in", "HD48", "d")]),
+            M("deep_out", [P("out", "HD48", "d")]),
+            M("witnessed", [P("in", "HR32", "box"), P("in", "IPeer", "witness")]),
+        ]},
+    ]
+    return {"id": cid, "files": [{"path": "main.idl", "nodes": nodes}], "main": "main.idl", "incdirs": [], "langs": ["c", "rust"]}
